@@ -314,6 +314,9 @@ func (rs *RequestServer) packetWorker(ctx context.Context, pktChan chan orderedR
 			request, ok := rs.getRequest(handle)
 			if !ok {
 				rpkt = statusFromError(pkt.id(), EBADF)
+			} else if !request.accepts(pkt) {
+				// e.g. a READ or WRITE on a directory handle, a READDIR on a file handle
+				rpkt = statusFromError(pkt.id(), EBADF)
 			} else {
 				rpkt = request.call(rs.Handlers, pkt, rs.pktMgr.alloc, orderID, rs.maxTxPacket)
 			}
